@@ -40,6 +40,7 @@ package fd
 // MustInt before the conversion reads it, under either of its two names).
 
 //@ func extractPipelineParams
+//@   option check-nil yes
 //@   option allow-exit yes
 //@   ghost conf int = 0
 //@   assert at "antispamRules, err = extractAntispamRules(" conf > 0 ==> antispamThreshold >= 1
@@ -87,6 +88,7 @@ package fd
 // action would be selected by fewer tests than configured).
 
 //@ func extractConditions
+//@   option check-nil yes
 //@   ghost nent int = 0
 //@   ensures result1 == nil ==> len(result0) == nent
 //@   loop 1 invariant len(conditions) == nent
